@@ -196,7 +196,7 @@ def run_case(case):
             execs += 1
             continue
         execs += 1
-        tol = 1e-9 if dtype == "float64" else 5e-5
+        tol = 1e-11 if dtype == "float64" else 5e-5
         delta = {}
         for key, p_ in allp:
             g = p_.grad
